@@ -239,6 +239,30 @@ pub fn gen_plan(seed: u64, run: u64, cfg: Config, sys: &SysZones) -> Generated {
             }
             menu.push(Some(name.clone()));
             menu.push(Some(format!(":{}", name)));
+            // a sibling whose name is easily confused with this one (other case, one more
+            // character, a non-ASCII letter) and which holds a different zone
+            if file_zones.len() > 1 && r.chance(1, 3) {
+                let other = file_zones[(file_zones.iter().position(|&x| x == k).unwrap() + 1) % file_zones.len()];
+                let sib = match r.below(5) {
+                    0 => name.to_lowercase(),
+                    1 => name.to_uppercase(),
+                    2 => format!("{}x", name),
+                    3 => format!("{}\u{e9}", name),
+                    _ => name.replacen("Sim/", "Sim/\u{c5}", 1),
+                };
+                let p = format!("{}/{}", ZONEINFO_DIRS[d], sib);
+                files0.push((p.clone(), other));
+                paths.push(p);
+                menu.push(Some(if r.chance(1, 3) { format!(":{}", sib) } else { sib }));
+            }
+            // the same name with a blank before or after it names no file (and is no rule)
+            if r.chance(1, 5) {
+                menu.push(Some(match r.below(3) {
+                    0 => format!("{} ", name),
+                    1 => format!(" {}", name),
+                    _ => format!("{}\n", name),
+                }));
+            }
             // a file of the same relative name in the process's working directory: relative
             // names are relative to the zoneinfo directories, never to the cwd
             if file_zones.len() > 1 && r.chance(1, 3) {
@@ -476,7 +500,13 @@ pub fn gen_plan(seed: u64, run: u64, cfg: Config, sys: &SysZones) -> Generated {
             _ => steps.push(Step::Respawn(r.usize(nworkers))),
         }
     }
-    let clock0_ns = 1_600_000_000_000_000_000 + r.below(200_000_000) * 1_000_000_000 + r.below(1_000_000_000);
+    // the wall clock at the start: usually the 2020s; sometimes a machine without a battery
+    // (clock at the epoch, where a backwards jump saturates) or one set centuries ahead
+    let clock0_ns = match r.below(12) {
+        0 => r.below(3_000_000_000),
+        1 => 15_000_000_000_000_000_000 + r.below(1_000_000_000_000),
+        _ => 1_600_000_000_000_000_000 + r.below(200_000_000) * 1_000_000_000 + r.below(1_000_000_000),
+    };
     Generated {
         plan: Plan {
             property: "C18".into(),
